@@ -143,7 +143,8 @@ def run_property(prop, tier, jobs=12, harness_timeout=600, extra_args=(), select
         o = Ob("K.build", "kani", "complete", "harness crate", "native build of the harness crate against /repo")
         o.detail = "harness crate does not compile against the current /repo tree (undecided, not a violation):\n" + out[-1500:]
         return [o], ["cargo build (failed)"], {"build": "failed"}, out
-    ents = [e for e in table() if e["prop"] == prop]
+    # tier `unreached`: contracts that are stated but that CBMC does not finish; never run, listed as not decided
+    ents = [e for e in table() if e["prop"] == prop and e["tier"] != "unreached"]
     if tier == "quick":
         ents = [e for e in ents if e["tier"] == "quick"]
     if select:
